@@ -277,7 +277,8 @@ def obligation(o, tier, seed):
         ctx = e2.context(True)
     except RuntimeError as e:
         return [Outcome(o["id"], "mirsym", "inconclusive", str(e))]
-    configs = [(2, 1), (2, 2)] if tier == "quick" else [(2, 1), (2, 2), (3, 1), (2, 3), (3, 2)]
+    # 3 threads x 2 calls: z3 gives no verdict within 40 min (measured) -- outside the bounds
+    configs = [(2, 1), (2, 2)] if tier == "quick" else [(2, 1), (2, 2), (3, 1), (2, 3)]
     outs = []
     for k, m in configs:
         oid = f"{o['id']}_{k}x{m}"
